@@ -194,6 +194,19 @@ func P(name string) *Party {
 	worldMu.Lock()
 	defer worldMu.Unlock()
 	p := world[name]
+	if p == nil && len(name) > 2 && name[:2] == "SL" {
+		// SL<n>: a passphrase party whose passphrase is exactly n bytes long
+		n := 0
+		fmt.Sscanf(name[2:], "%d", &n)
+		pass := make([]byte, n)
+		for i := range pass {
+			pass[i] = "0123456789abcdef"[(i*7+n)%16]
+		}
+		p = &Party{Name: name, Kind: 'S', Pass: string(pass),
+			Recipient: ScryptRecipient(string(pass), ScryptLogN), Identity: ScryptIdentity(string(pass), 0),
+			Ref: refage.ScryptKey{Pass: string(pass)}}
+		world[name] = p
+	}
 	if p == nil && len(name) > 2 && name[:2] == "XN" {
 		x := NewX(name)
 		p = &Party{Name: name, Kind: 'X', Recipient: x.Recipient(), Identity: x.Identity(), Ref: x.Ref}
